@@ -14,6 +14,18 @@ OPT_PIPE = 'function(sroa,early-cse,instsimplify,simplifycfg),cgscc(inline),func
 
 
 # never part of any claim: sending packets / waiting for replies (sockets, libpcap)
+STUB_SIGS = {
+    'vp_stub_inner_ctor': ('void', ['void*', 'const uint8_t*', 'uint32_t']),
+    'vp_stub_dispatch4': ('Tins::PDU*', ['uint32_t', 'const uint8_t*', 'uint32_t', 'bool']),
+    'vp_stub_dispatch3': ('Tins::PDU*', ['uint32_t', 'const uint8_t*', 'uint32_t']),
+    'vp_stub_from_bytes': ('Tins::PDU*', ['const uint8_t*', 'uint32_t']),
+    'vp_stub_allocate16': ('Tins::PDU*', ['uint16_t', 'const uint8_t*', 'uint32_t']),
+    'vp_stub_allocate8': ('Tins::PDU*', ['uint8_t', 'const uint8_t*', 'uint32_t']),
+    'vp_stub_opt_append': ('void', ['void*', 'void*']),
+    'vp_stub_opt_reserve': ('void', ['void*', 'uint64_t']),
+    'vp_stub_tcp_emplace3': ('void', ['void*', 'const uint32_t*', 'const uint8_t* const*', 'const uint8_t* const*']),
+    'vp_stub_tcp_emplace2': ('void', ['void*', 'const uint32_t*', 'const int*']),
+}
 DEFAULT_STUBS = [r'_ZN4Tins\w+4sendERNS_12PacketSenderERKNS_16NetworkInterfaceE', r'_ZN4Tins\w+13recv_responseERNS_12PacketSenderERKNS_16NetworkInterfaceE',
                  r'_ZN4Tins12PacketSender\w+', r'_ZN4Tins16NetworkInterface\w+', r'_ZNK4Tins16NetworkInterface\w+']
 
@@ -32,19 +44,19 @@ def must(cmd, **kw):
 
 class Unit:
     """One translated unit: a shim (C++ harness entry points) linked with all of libtins, pruned to the cone."""
-    def __init__(self, name, shim=None, shim_text=None, stubs=(), models=(), differential=True, extra_ll_flags=(), ctors=True):
+    def __init__(self, name, shim=None, shim_text=None, stubs=(), models=(), differential=True, extra_ll_flags=(), ctors=True, redirect=None):
         self.name = name; self.shim = shim; self.shim_text = shim_text
         self.stubs = list(stubs); self.models = list(models); self.differential = differential
-        self.extra_ll_flags = list(extra_ll_flags); self.ctors = ctors
+        self.extra_ll_flags = list(extra_ll_flags); self.ctors = ctors; self.redirect = dict(redirect or {})
 
 
 class Inst:
     """One CBMC query: harness function + concrete parameters + bounds."""
     def __init__(self, unit, fn, params=(), unwind=None, unwindset=None, timeout=120, mem_gb=12, flags=(), witness=True,
-                 note='', objbits=None, ladder=None, defines=(), leak=False):
+                 note='', objbits=None, ladder=None, defines=(), leak=False, accept=None, recursion=3, rec_extra=None):
         self.unit = unit; self.fn = fn; self.params = tuple(params); self.unwind = unwind; self.unwindset = dict(unwindset or {})
         self.timeout = timeout; self.mem_gb = mem_gb; self.flags = list(flags); self.witness = witness; self.note = note
-        self.objbits = objbits; self.defines = list(defines); self.leak = leak
+        self.objbits = objbits; self.defines = list(defines); self.leak = leak; self.accept = accept; self.recursion = recursion; self.rec_extra = dict(rec_extra or {})
 
     @property
     def id(self):
@@ -183,6 +195,42 @@ class Build:
             open(shim_cpp, 'w').write(u.shim_text)
         else:
             shutil.copy(os.path.join(VERIF, 'shim', u.shim), shim_cpp)
+        if u.redirect:
+            # contract stubs: the library body is deleted and the shim defines an extern "C" function with the same (mangled) name
+            # that forwards to the stub named in u.redirect (signatures in STUB_SIGS)
+            tr = ['// ---- trampolines generated by engine/driver.py (own TU: no libtins headers, so no clash with inline template instantiations) ----', '#include <stdint.h>', 'extern "C" {']
+            for tname, (tret, targs) in sorted(STUB_SIGS.items()): tr.append('%s %s(%s);' % ('void*' if tret.endswith('*') else tret, tname, ', '.join(targs)))
+            LT = {'i1': 'bool', 'i8': 'uint8_t', 'i16': 'uint16_t', 'i32': 'uint32_t', 'i64': 'uint64_t', 'void': 'void'}
+            for m in re.finditer(r'^define ([^@\n]*)@("[^"]+"|[\w.$]+)\(([^\n]*)\) [^\n]*\{$', self.all_text, re.M):
+                name = m.group(2)
+                for pat, target in u.redirect.items():
+                    if not re.fullmatch(pat, name): continue
+                    ret_ir = m.group(1).split()
+                    ret_ir = [w for w in ret_ir if w not in ('internal', 'linkonce_odr', 'weak_odr', 'dso_local', 'noundef', 'nonnull', 'zeroext', 'signext', 'hidden', 'available_externally', 'weak') and not w.startswith('align') and not w.startswith('dereferenceable')]
+                    rt_ = ret_ir[-1] if ret_ir else 'void'
+                    rct = LT.get(rt_, 'void*')
+                    params = []
+                    depth = 0; cur = ''
+                    for ch in m.group(3) + ',':
+                        if ch == ',' and depth == 0:
+                            if cur.strip(): params.append(cur.strip())
+                            cur = ''
+                        else:
+                            if ch in '(<[{': depth += 1
+                            if ch in ')>]}': depth -= 1
+                            cur += ch
+                    cts = []
+                    for p_ in params:
+                        p_ = re.sub(r'"[^"]*"', 'Q', p_)
+                        ty0 = p_.split()[0]
+                        cts.append('void*' if ('*' in ty0 or ty0.endswith('*')) else LT.get(ty0, 'void*'))
+                    tret, targs = STUB_SIGS[target]
+                    if tret.endswith('*'): tret = 'void*'
+                    call = '%s(%s)' % (target, ', '.join('(%s)a%d' % (targs[i], i) for i in range(len(cts))))
+                    tr.append('%s %s(%s) { %s%s; }' % (rct, name, ', '.join('%s a%d' % (t, i) for i, t in enumerate(cts)), '' if rct == 'void' else 'return (%s)' % rct, call))
+                    break
+            tr.append('}')
+            open(d + '/tramp.cpp', 'w').write('\n'.join(tr) + '\n')
         text = open(shim_cpp).read()
         entries = re.findall(r'^\s*H\((h_\w+)\)', text, re.M)
         if getattr(u, 'only_entries', None): entries = [e for e in entries if e in u.only_entries]
@@ -190,20 +238,26 @@ class Build:
         must(['clang++-14'] + CXXDEFS + u.extra_ll_flags + ['-I' + VERIF + '/shim', '-O1', '-Xclang', '-disable-llvm-passes', '-gline-tables-only', '-w', '-S', '-emit-llvm', shim_cpp, '-o', d + '/shim0.ll'])
         stext, sctors = self._normalise(open(d + '/shim0.ll').read(), self.alias)
         open(d + '/shim.ll', 'w').write(stext)
+        link_extra = []
+        if u.redirect:
+            must(['clang++-14', '-std=c++11', '-O1', '-Xclang', '-disable-llvm-passes', '-w', '-S', '-emit-llvm', d + '/tramp.cpp', '-o', d + '/tramp.ll'])
+            link_extra = [d + '/tramp.ll']
         lib_bc = self.dir + '/all2.bc'; refs = self.refs; gl = self.gl; kill = []
-        if u.stubs:
-            t2, kill = self._stub(self.all_text, u.stubs)
+        if u.stubs or u.redirect:
+            t2, kill = self._stub(self.all_text, list(u.stubs), required=True)
+            t2, kill2 = self._stub(t2, list(u.redirect), required=False); kill = kill + kill2
             open(d + '/lib.ll', 'w').write(t2)
             must(['llvm-as-14', d + '/lib.ll', '-o', d + '/lib.bc']); lib_bc = d + '/lib.bc'
             refs, gl = self._refgraph(t2)
         srefs, sgl = self._refgraph(stext)
         R = dict(refs); R.update(srefs); G = dict(gl); G.update(sgl)
         ctors = self._needed_ctors(R, G, entries, self.ctor_names + sctors) if u.ctors else []
-        must(['llvm-link-14', lib_bc, d + '/shim.ll', '-o', d + '/u0.bc'])
+        must(['llvm-link-14', lib_bc, d + '/shim.ll'] + link_extra + ['-o', d + '/u0.bc'])
         must(['opt-14', '-passes=internalize,globaldce', '-internalize-public-api-list=' + ','.join(entries + ctors), d + '/u0.bc', '-S', '-o', d + '/u3.ll'])
         must(['opt-14', '-S', '-passes=' + OPT_PIPE, d + '/u3.ll', '-o', d + '/unit.ll'])
         r = must([sys.executable, ENGINE + '/ir2c.py', d + '/unit.ll', d + '/unit.c', ','.join(ctors)])
         u.untranslated = re.findall(r'UNTRANSLATED (\S+): (.*)', r.stderr)
+        u.c_functions = [l for l in open(d + '/unit.c.funcs').read().split('\n') if l]
         u.dir = d; u.entries = entries; u.stubbed = sorted(set(kill))
         u.ir_sha = hashlib.sha256(open(d + '/unit.ll', 'rb').read()).hexdigest()
         u.functions = re.findall(r'^define [^@]*@("[^"]+"|[\w.$]+)\(', open(d + '/u3.ll').read(), re.M)   # cone before inlining
@@ -252,7 +306,7 @@ class Build:
         d = u.dir
         must(['gcc', '-O1', '-w', '-DVP_NATIVE', '-I' + ENGINE, d + '/unit.c', ENGINE + '/rt.c', d + '/entries.c'] + u.models_abs + ['-o', d + '/xlat', '-no-pie', '-Wl,--unresolved-symbols=ignore-all', '-lstdc++', '-lm'])
         u.xlat_bin = d + '/xlat'
-        if u.differential:
+        if True:   # the real (sanitized) build is always needed for replay; u.differential only controls the transcript comparison
             must(['gcc', '-O1', '-w', '-DVP_NATIVE', '-DVP_REAL', '-I' + ENGINE, '-c', ENGINE + '/rt.c', '-o', d + '/rt_real.o'])
             must(['gcc', '-w', '-c', d + '/entries.c', '-o', d + '/entries.o'])
             must(['g++'] + CXXDEFS + ['-I' + VERIF + '/shim', '-O1', '-g1', '-fsanitize=address,undefined', '-fno-sanitize=vptr', '-fno-sanitize-recover=undefined', '-w', d + '/shim.cpp', ENGINE + '/real_main.cpp',
@@ -288,7 +342,12 @@ def cbmc_cmd(u, inst, extra=()):
     cmd += ['--function', 'vp_main', '--drop-unused-functions', '--unwinding-assertions', '--no-malloc-may-fail',
             '--max-field-sensitivity-array-size', '512']
     if inst.unwind is not None: cmd += ['--unwind', str(inst.unwind)]
-    if inst.unwindset: cmd += ['--unwindset', ','.join('%s:%d' % kv for kv in sorted(inst.unwindset.items()))]
+    uws = dict(inst.unwindset)
+    if inst.recursion is not None:
+        # recursion depth is bounded separately from loops (a symbolic virtual target would otherwise be unfolded --unwind levels deep)
+        for fn in u.c_functions:
+            uws[fn] = inst.rec_extra.get(fn, inst.recursion)
+    if uws: cmd += ['--unwindset', ','.join('%s:%d' % kv for kv in sorted(uws.items()))]
     cmd += ['--object-bits', str(inst.objbits or 11)]
     if inst.leak: cmd += ['--memory-leak-check']
     cmd += list(inst.flags) + list(extra)
